@@ -11,6 +11,7 @@
 import AgeModel.Extracted.Panics
 import AgeModel.Extracted.CallOrder
 import Proofs.GoTieScrypt
+import Proofs.GoTieFormat
 namespace AgeModel
 namespace Tie.C14
 
@@ -48,6 +49,16 @@ theorem scrypt_unwrap_no_kdf (P : Prims) (E : GoTie.ScryptEnv P) (pw : Bytes) (m
 theorem scrypt_unwrap_kdf_bounded (P : Prims) (E : GoTie.ScryptEnv P) (pw : Bytes) (maxWF : Nat) (s : Format.Stanza)
     (logN : Nat) (h : (unwrapScrypt P pw maxWF s).2 = [logN]) : logN ≤ maxWF :=
   (GoTie.scrypt_unwrap_kdf_args P E pw maxWF s logN h).1
+
+
+/-- The code itself (DESIGN.md §5.3): the header parser as TRANSLATED from the source returns
+    (a header or an error) on EVERY input — no fault of the translated fragment (index or slice
+    out of range, explicit panic, an unbounded loop: the fuel `len(input)+1` suffices) is reachable,
+    provided `format.DecodeString` returns. -/
+theorem header_parser_returns (D : Bytes → Go.M (Bytes × Option Go.Err)) (eD : Go.Err) (hD : GoTie.DecodeIsModel D eD)
+    (input : Bytes) : ∃ res, Extracted.format_Parse D input = .ok res :=
+  let ⟨res, h, _⟩ := GoTie.parse_tie D eD hD input
+  ⟨res, h⟩
 
 end Tie.C14
 end AgeModel
